@@ -1,10 +1,11 @@
 #!/bin/sh
 # usage: tools/seedall.sh [tier]   -- run every recorded seeded change against the check named in its meta.json ("detected_by": "Cxx quick: ...",
-# normally its own property's check); every line must say exit=1
-TIER="${1:-quick}"
+# normally its own property's check); every line must say exit=1.   usage: tools/seedall.sh [tier] [egrep pattern on the directory names]
+TIER="${1:-quick}"; PAT="${2:-.}"
 cd "$(dirname "$0")/.." || exit 2
 MISS=0
 for d in seeded/*/; do
+  echo "$d" | grep -Eq "$PAT" || continue
   id=$(/venv/bin/python -c "import json,sys; print(json.load(open(sys.argv[1]))['detected_by'].split()[0])" "$d/meta.json" 2>/dev/null)
   case "$id" in C[0-9][0-9]) ;; *) id=$(basename "$d" | cut -d- -f1) ;; esac
   OUT=$(tools/seedtest.sh "$(pwd)/${d%/}/patch.diff" "$id" "$TIER" 2>&1 | grep -v conda | cut -c1-260)
